@@ -8,7 +8,7 @@ use refmodel::values::values;
 use refmodel::*;
 use serde_json::json;
 
-const N_CALLS: usize = 9;
+const N_CALLS: usize = 11;
 const CALL_NAMES: [&str; N_CALLS] = [
     "enc struct{N1 nested evolved, DeduplicatedString}",
     "dec of the same type",
@@ -19,6 +19,8 @@ const CALL_NAMES: [&str; N_CALLS] = [
     "dec Vec<DeduplicatedString> with back-references",
     "enc evolved history declaration",
     "enc that FAILS in a later chunk (transient constructor) after chunk 0 was written",
+    "dec graph with a cycle (fills the reference table)",
+    "dec stream that cites reference 1 before any object (must be InvalidRefId)",
 ];
 
 struct Subjects {
@@ -100,6 +102,20 @@ fn call(i: usize, u: &U, s: &Subjects) -> Vec<u8> {
             let (ty, v) = failing_subject();
             render(bridge::dynrec::dyn_encode(&ty, &v))
         }
+        9 => match bridge::tables::graph_decode(&[0, 1, 1, 0, 2, 1, 0, 3, 2, 1, 2]) {
+            Out::Ok(d) => {
+                let n = d.all.len();
+                d.dispose();
+                format!("graph with {n} objects").into_bytes()
+            }
+            Out::Err(e) => format!("ERR {e:?}").into_bytes(),
+            Out::Panic(p) => format!("PANIC {p}").into_bytes(),
+        },
+        10 => match bridge::tables::first_ref_resolves(&[1]) {
+            Out::Ok(b) => format!("resolved={b}").into_bytes(),
+            Out::Err(e) => format!("ERR {e:?}").into_bytes(),
+            Out::Panic(p) => format!("PANIC {p}").into_bytes(),
+        },
         _ => unreachable!(),
     }
 }
@@ -117,6 +133,8 @@ fn expected(u: &U, s: &Subjects) -> Vec<Vec<u8>> {
         format!("{:?}", Val::Seq(vec![Val::s("x"), Val::s("y"), Val::s("x")])).into_bytes(),
         m(&s.hist, &s.hist_val),
         format!("ERR {:?}", bridge::ErrKind::SerializingTransientConstructor { constructor_name: "Temp".into(), type_name: "Att".into() }).into_bytes(),
+        b"graph with 3 objects".to_vec(),
+        format!("ERR {:?}", bridge::ErrKind::InvalidRefId(1)).into_bytes(),
     ]
 }
 
@@ -419,7 +437,7 @@ pub fn run(tier: &str, only: Option<String>) -> i32 {
         }
     }
     run.stats.add("call_sequences_in_fresh_processes", seqs.len() as u64);
-    run.rule = format!("(a) every interleaving (shuttle DFS, no preemption bound) of 2{} threads each doing one of 7 calls, under three hook filters (string/ref tables; record open/finish and context creation; field writes/reads), metadata statics initialised under contention in every schedule; (b) all {} sequences of depth <= {} over 9 calls (one of which fails half-way through a record), each in a fresh process; (c) every value of the universe encoded twice from the same instance. Oracle: every call returns what it returns alone and what the reference model prescribes. Non-trivial = schedules with >= 2 threads, sequences with >= 2 calls.", if thorough { " and 3" } else { "" }, seqs.len(), depth);
+    run.rule = format!("(a) every interleaving (shuttle DFS, no preemption bound) of 2{} threads each doing one of 7 calls, under three hook filters (string/ref tables; record open/finish and context creation; field writes/reads), metadata statics initialised under contention in every schedule; (b) all {} sequences of depth <= {} over 11 calls (one fails half-way through a record, one fills the reference table, one cites a reference that was never introduced), each in a fresh process; (c) every value of the universe encoded twice from the same instance. Oracle: every call returns what it returns alone and what the reference model prescribes. Non-trivial = schedules with >= 2 threads, sequences with >= 2 calls.", if thorough { " and 3" } else { "" }, seqs.len(), depth);
     run.bounds = json!({"threads": if thorough { 3 } else { 2 }, "sequence_depth": depth});
     run.extra.insert("supplementary_sampled_part".into(), json!("(d) 200 / 2000 fresh processes, 8 free-running OS threads each released by a barrier; this part SAMPLES schedules of the operating system and is not part of the exhaustive claim"));
     run.assumptions = vec![
